@@ -87,6 +87,19 @@ CLAIMS.update({
    design="3/C16"),
 })
 
+CLAIMS.update({
+ 'C03': dict(
+   text="Explicit-state breadth-first search (X2, canonical-digest de-duplication, iterative deepening; quick reaches depth 7-8, ~0.5-3 M executions) over the real server receiving on up to 3 streams from a scripted peer that stays inside the windows it sees: DATA plain / padded / END_STREAM, RST_STREAM, SETTINGS-ACK timing; application poll_data (holding what it read), release all / one octet, drop RecvStream, drop all handles, send_reset, respond, set_target_window_size up/down, set_initial_window_size up/down. Invariant in every state from the wire alone: peer-view windows never above the largest configured size (nor 2^31-1), no octet credited twice. Threshold-agnostic epilogue from every new state: release everything, let the peer use up the whole connection window through a fresh stream while the application reads without releasing, release all at once, quiesce - connection window back at its target and the carrier stream at the acknowledged initial window.",
+   note="Scope: for a stream whose RecvStream was dropped while the stream stays open only the connection window is required to return; unreleased octets held when the RecvStream is dropped are returned by dropping the remaining handles.",
+   tech="explicit-state BFS over the real implementation with canonical state hashing; wire-level window accountant as invariant, exhaust-and-release epilogue from every new state",
+   design="3/C03"),
+ 'C05': dict(
+   text="Explicit-state breadth-first search (X2) in both directions. Real client with 2-3 SendRequest clones against a scripted peer whose SETTINGS_MAX_CONCURRENT_STREAMS moves between 0, 1, 2 and unlimited at any time: request (parked when over the limit), poll_ready, peer response / RST_STREAM, client reset / drop, GOAWAY; invariant: no stream opened while as many as the acknowledged limit are open on the wire according to what the subject has itself sent and consumed; epilogue: no request parked while a slot is free, no poll_ready waiter left unwoken. Real server advertising 1 / 2 against a peer opening up to limit+2 streams and closing them by every path while the application responds / resets / drops / reads; invariant: active streams surfaced <= limit, a refused stream gets exactly one REFUSED_STREAM and never reaches accept(); epilogue: nothing in limbo, a probe stream is accepted whenever fewer than the limit are open (every close path frees its slot).",
+   note="The monitor closes a stream at the earliest moment the subject can know, so its count is never above h2's own.",
+   tech="explicit-state BFS over the real implementation with canonical state hashing; wire-level concurrency monitor as invariant, slot-recycling probe as epilogue",
+   design="3/C05"),
+})
+
 NOT_YET = "check not built yet (work in progress; DESIGN.md section 3 describes the planned harness)"
 NA = {}
 
